@@ -9,11 +9,11 @@ CONSTANTS
   PAns = {"ok"}
   PPub = {"ok"}
   Relay = 253
-  Ends = {253, 254, 760, 1263, 100253, 1000000}
+  Ends = {200, 253, 254, 760, 1263, 100253, 1000000}
   Sopts = {0, 253, 5000}
   Ests = {0, 253, 300}
-  Cts = {1007, 1008, 1009, 1011}
-  ConfSet = {0, 1, 2, 3, 500, 1006, 1007, 1008, 1009, 1010, 1011, 1012}
+  Cts = {1007, 1008, 1009, 1011, 2016}
+  ConfSet = {0, 1, 2, 3, 500, 1006, 1007, 1008, 1009, 1010, 1011, 1012, 2015, 2016, 2017}
   Weights = {}
   Budgets = {}
   MaxVbs = {}
